@@ -14,6 +14,13 @@ func main() {
 		os.Exit(2)
 	}
 	id := os.Args[1]
+	if id == "--gen-pinned-registry" {
+		if err := checks.GenPinned(); err != nil {
+			fmt.Fprintln(os.Stderr, err)
+			os.Exit(2)
+		}
+		return
+	}
 	spec, ok := checks.All[id]
 	if !ok {
 		fmt.Fprintln(os.Stderr, "unknown check", id)
